@@ -4,6 +4,7 @@ package sim
 
 import (
 	"encoding/json"
+	"os"
 	"fmt"
 	"runtime/debug"
 	"sort"
@@ -71,8 +72,12 @@ func NewApp(db dbm.DB, chainID string) *exocoreapp.ExocoreApp {
 	oracle.VerifResetProcessState()
 	cfg := encoding.MakeConfig(exocoreapp.ModuleBasics)
 	pr := pruningtypes.NewPruningOptionsFromString(pruningtypes.PruningOptionNothing)
+	var logger log.Logger = log.NewNopLogger()
+	if os.Getenv("VERIF_LOG") != "" {
+		logger = log.NewTMLogger(log.NewSyncWriter(os.Stdout))
+	}
 	return exocoreapp.NewExocoreApp(
-		log.NewNopLogger(), db, nil, true, map[int64]bool{},
+		logger, db, nil, true, map[int64]bool{},
 		exocoreapp.DefaultNodeHome, 5, cfg,
 		simtestutil.NewAppOptionsWithFlagHome(exocoreapp.DefaultNodeHome),
 		baseapp.SetChainID(chainID), baseapp.SetPruning(pr),
